@@ -151,7 +151,11 @@ class Engine:
 
     def gen_plan(self, rng, config, tier, prop):
         n_libs = len(self.lib_files())
-        ops = [{"op": "copy", "tree": 0}]
+        ops = []
+        # sometimes the original is used (flattened directly) before the first copy is taken
+        for _ in range(rng.choice([0, 0, 1, 2])):
+            ops.append({"op": "check", "tree": 0, "cls": rng.randrange(1000), "via": "direct"})
+        ops.append({"op": "copy", "tree": 0})
         n_trees = 2
         for _ in range(rng.randint(2, 9)):
             r = rng.random()
@@ -164,7 +168,7 @@ class Engine:
                             "other": rng.randrange(8), "hub": rng.random() < 0.6})
             else:
                 ops.append({"op": "check", "tree": t, "cls": rng.randrange(1000),
-                            "via": rng.choice(["copy", "copy", "sympy", "xml"])})
+                            "via": rng.choice(["copy", "copy", "direct", "direct", "sympy", "xml"])})
         if rng.random() < 0.4:
             ops.append({"op": "check", "tree": rng.randrange(n_trees), "cls": rng.randrange(1000), "via": "direct_last"})
         return {"lib": rng.randrange(n_libs), "ops": ops}
@@ -178,6 +182,10 @@ class Engine:
             if op.get("tree", 0) != 0:
                 p = copy.deepcopy(plan)
                 p["ops"][i]["tree"] = 0
+                yield p
+            if op.get("via") in ("direct", "sympy", "xml"):
+                p = copy.deepcopy(plan)
+                p["ops"][i]["via"] = "copy"
                 yield p
 
     # -- flatten helpers ----------------------------------------------------------------------------
@@ -213,6 +221,7 @@ class Engine:
         if lib is not None:
             pk, classes, rel = lib
             hubs = [c for c in classes if rel[c]["type"] or rel[c]["extends"]] or classes
+            dependents = sorted({d for c in classes for d in rel[c]["type"] + rel[c]["extends"]})
             trees = [pickle.loads(pk)]
             logs = [[]]  # per tree: list of resolved edits
             depth = [0]
@@ -230,7 +239,7 @@ class Engine:
                 if i in direct_done:
                     return None
                 got = self.flat(trees[i], cls, "direct" if via == "direct_last" else via)
-                want = self.flat(ref_tree(i), cls, "direct" if via in ("copy", "direct_last") else via)
+                want = self.flat(ref_tree(i), cls, "direct" if via in ("copy", "direct", "direct_last") else via)
                 if via == "direct_last":
                     direct_done.add(i)
                 log.add(0, i, "check", "%s %s %s %s" % (cls, via, got[0], want[0]))
@@ -268,7 +277,9 @@ class Engine:
                 if not cur:
                     continue
                 if k == "check":
-                    cls = cur[op["cls"] % len(cur)]
+                    deps = [c for c in dependents if c in cur]
+                    pick_from = deps if deps and op["cls"] % 10 < 7 else cur
+                    cls = pick_from[(op["cls"] // 10) % len(pick_from)]
                     viol = check(i, cls, op["via"], "explicit check", ["check", op["via"], depth[i]])
                     if viol:
                         break
